@@ -60,6 +60,10 @@ class _TextCueParser:
     self.ruby_rbc: typing.Optional[model.Rbc] = None
     self.ruby_rtc: typing.Optional[model.Rtc] = None
 
+    # last timestamp tag and the spans created to hold the text that follows a timestamp tag
+    self.ts = None
+    self.ts_spans: typing.List[model.Span] = []
+
   def handle_token(self, token: Token) -> None:
     if isinstance(token, StartTagToken):
       self._handle_starttag(token)
@@ -74,22 +78,41 @@ class _TextCueParser:
 
   def _handle_ts(self, token: TimestampTagToken):
 
+    ts = vtt_timestamp_to_secs(token.timestamp)
+    if ts is None:
+      LOGGER.warning("Invalid timestamp tag %s", token.timestamp)
+      return
+
+    # a timestamp applies to the text that follows it, up to the next timestamp
+    self._close_ts_span()
+    self.ts = ts
+    self._open_ts_span()
+
+  def _open_ts_span(self):
+    """Opens a span that holds the text following the last timestamp tag"""
+    parent_begin = 0
+    element = self.parent
+    while element is not None:
+      parent_begin += element.get_begin() or 0
+      element = element.parent()
+
     span = self._make_span(self.parent)
     self.parent.push_child(span)
     self.parent = span
+    self.ts_spans.append(span)
 
-    ts = vtt_timestamp_to_secs(token.timestamp)
-    parent_begin = None
-    parent = self.parent
-    while parent is not None:
-      parent_begin = parent.get_begin()
-      if parent_begin is not None:
-        break
-      parent = parent.parent()
-    if ts is not None and parent_begin is not None and parent_begin <= ts:
-      span.set_begin(ts - parent_begin)
+    if parent_begin <= self.ts:
+      span.set_begin(self.ts - parent_begin)
     else:
-      LOGGER.warning("Invalid timestamp tag %s", token.timestamp)
+      LOGGER.warning("Timestamp tag at %ss precedes the cue at line %s", self.ts, self.line_num)
+
+  def _close_ts_span(self) -> bool:
+    """Leaves the timestamp spans that are currently open, if any"""
+    is_closed = False
+    while any(self.parent is span for span in self.ts_spans):
+      self.parent = self.parent.parent()
+      is_closed = True
+    return is_closed
 
   def _handle_starttag(self, token: StartTagToken):
 
@@ -161,6 +184,9 @@ class _TextCueParser:
 
   def _handle_endtag(self, _token: EndTagToken):
 
+    # the end tag closes the element that was open when the timestamp tag was met, not the timestamp span
+    reopen_ts_span = self._close_ts_span()
+
     if isinstance(self.parent, model.Ruby):
       self.ruby_rbc = None
       self.ruby_rtc = None
@@ -169,6 +195,9 @@ class _TextCueParser:
       self.parent = self.parent.parent()
 
     self.parent = self.parent.parent()
+
+    if reopen_ts_span and isinstance(self.parent, (model.P, model.Span)):
+      self._open_ts_span()
 
   def _handle_string(self, token: StringToken):
     lines = token.value.split("\n")
